@@ -655,6 +655,13 @@ func (g *G) Template() []string {
 			"if " + cond + " {\n" + e() + "\n}",
 			"zq = " + e() + "\nif " + cond + " zq = zq + 1",
 			"while " + cond + " return " + e(),
+			// one branch returns, the other has a value: as a tail, and as the last statement of a loop body
+			"if " + cond + " " + b() + " else return " + e(),
+			"if " + cond + " return " + e() + " else " + b(),
+			"zi = 0\nwhile zi < 2 {\nzi = zi + 1\nif " + cond + " zi else return 9\n}",
+			"zi = 0\nwhile zi < 2 {\nzi = zi + 1\nif " + cond + " return 9 else zi * 3\n}",
+			"for zv <- fromto(0, 3) if " + cond + " zv else return 7",
+			"for zv <- fromto(0, 3) {\nif zv > 5 return zv else {\nif " + cond + " zv + 1\n}\n}",
 			// loops that run zero times on one of the calls; the body's value is a variable, a literal or on the stack
 			"zi = 0\nif " + cond + " zi = 3\nwhile zi < 3 zi = zi + 1",
 			"zi = 0\nif " + cond + " zi = 3\nwhile lt(zi, 3) {\nzi = zi + 1\nzi\n}",
